@@ -48,7 +48,7 @@ func r092(c *Ctx) {
 	var cmpOK, extra bool
 	var prevCell, newCell *ssa.Alloc
 	for _, ce := range dominatingConds(notify.Block()) {
-		cm, ok := asCmp(ce.cond, ce.taken)
+		cm, ok := ce.asCmp()
 		if !ok {
 			extra = true
 			continue
